@@ -201,6 +201,42 @@ def run(ctx):
                             for pr in probs:
                                 res.violations.append(vlib.Violation("table not well-formed: " + pr, inp, observed=out[:1500].decode("latin1"),
                                                                      cls="name-contains-LF" if lf_only else None))
+        # very long names and very long paths (git lists "<oid> <path>" lines of 4 KiB, 20 KiB, 70 KiB): real git only
+        for label, names_, depth in (("one 5000-byte name", [b"L" * 5000], 0), ("one 20000-byte name", [b"M" * 20000], 0),
+                                      ("300-byte names nested 20 deep", [b"n" * 300], 20), ("one 70000-byte name", [b"Z" * 70000], 0)):
+            sc = S.Scenario()
+            big = sc.add({"kind": "blob", "data": b"H" * 50000})
+            t = sc.add({"kind": "tree", "entries": [(0o100644, names_[0], big)]})
+            for _ in range(depth):
+                t = sc.add({"kind": "tree", "entries": [(0o40000, names_[0], t)]})
+            c = sc.add({"kind": "commit", "tree": t, "parents": []})
+            sc.refs.append((b"refs/heads/main", c))
+            sc.compute()
+            for fmt in (["--json"], ["--json", "--json-version=2"], ["-v"]):
+                try:
+                    rc, out, err, d, gitdir = eng.run_real(sc, [], extra_args=fmt + ["--no-progress"])
+                except Exception as e:
+                    continue
+                eng.drop(d)
+                res.case(("long", label, tuple(fmt)), True)
+                inp = {"names": label, "args": fmt}
+                if rc != 0:
+                    res.violations.append(vlib.Violation("run failed on a repository with %s: %s" % (label, err[:200].decode("latin1")), inp, expected="exit 0"))
+                    continue
+                if fmt[0] == "--json":
+                    try:
+                        j = json.loads(out.decode("utf-8"))
+                    except Exception as e:
+                        res.violations.append(vlib.Violation("stdout is not valid JSON: %s" % e, inp))
+                        continue
+                    ks = (set(j) - {"reference_groups"}) if len(fmt) == 1 else {k for k in j if not k.startswith("refgroup.")}
+                    exp = keys1 if len(fmt) == 1 else keys2
+                    missing = {k for k in exp if "tag" not in k} - ks
+                    if missing:
+                        res.violations.append(vlib.Violation("JSON key set differs from the plain-name twin", inp, expected=sorted(missing)))
+                else:
+                    for pr in check_table(out):
+                        res.violations.append(vlib.Violation("table not well-formed: " + pr, inp, observed=out[:600].decode("latin1")))
     finally:
         eng.close()
     res.coverage_extra["input_distribution"] = {"cases_with_LF_in_a_name": lf_cases}
